@@ -8,6 +8,7 @@ import (
 	"net/netip"
 	"os"
 	"path/filepath"
+	"sync"
 	"time"
 
 	"github.com/uhppoted/uhppote-core/types"
@@ -16,7 +17,7 @@ import (
 
 func init() { commands["c17"] = runC17 }
 
-var insActions = []string{"mutate_caller", "mutate_returned", "call", "scribble", "mutate_result", "recheck", "clone"}
+var insActions = []string{"mutate_caller", "mutate_returned", "call", "scribble", "mutate_result", "recheck", "clone", "events"}
 
 type heldVal struct {
 	v       any
@@ -71,6 +72,27 @@ func mutateValue(v any, rng *rand.Rand) {
 	}
 }
 
+// keepListener keeps the pointer it is handed by OnEvent (and what the status looked like at that moment)
+type keepListener struct {
+	mu   sync.Mutex
+	kept []*types.Status
+	at   []M
+}
+
+func (l *keepListener) OnConnected() {}
+func (l *keepListener) OnEvent(s *types.Status) {
+	l.mu.Lock()
+	l.kept = append(l.kept, s)
+	l.at = append(l.at, projRet(s, nil))
+	l.mu.Unlock()
+}
+func (l *keepListener) OnError(err error) bool { return true }
+func (l *keepListener) count() int {
+	l.mu.Lock()
+	defer l.mu.Unlock()
+	return len(l.kept)
+}
+
 func insHistory(id string, rng *rand.Rand, lt *layoutTables, actions []string) M {
 	ev := []any{}
 	const target = 405419896
@@ -80,6 +102,7 @@ func insHistory(id string, rng *rand.Rand, lt *layoutTables, actions []string) M
 		{Bind: "192.168.1.10:0", Broadcast: "192.168.1.255:60005", Devices: []devCfg{{Name: "gamma", Serial: 201020304, Addr: "192.168.1.102:60000", Proto: "udp"}, {Name: "alpha", Serial: target, Addr: "", Proto: "udp"}}},
 	}
 	cfg := cfgChoices[rng.Intn(len(cfgChoices))]
+	cfg.Listen = "127.0.0.1:60001"
 	d := &stubDriver{reuse: true}
 	u, devices := cfg.build(func(uhppote.Driver) uhppote.Driver { return d })
 	ev = append(ev, M{"ev": "construct", "cfg": projCfgRouted(cfg)})
@@ -176,6 +199,32 @@ func insHistory(id string, rng *rand.Rand, lt *layoutTables, actions []string) M
 			if !pn && err == nil && ret["t"] != "nil" {
 				held = append(held, &heldVal{v: v})
 			}
+		case "events":
+			// two or three events through the listener (fed from one reused, scribbled-over buffer); the caller KEEPS the
+			// *types.Status it was handed: a later event must not change an earlier one
+			evs := [][]byte{}
+			for k := 0; k < 2+rng.Intn(2); k++ {
+				evs = append(evs, lt.Event.message(rng, 0x17, []byte{byte(1 + rng.Intn(255)), byte(rng.Intn(256)), 3, 4}, "valid", nil))
+			}
+			d.events = evs
+			kl := &keepListener{}
+			q := make(chan os.Signal, 1)
+			done := make(chan struct{})
+			go func() { u.Listen(kl, q); close(done) }()
+			for t0 := time.Now(); kl.count() < len(evs) && time.Since(t0) < 2*time.Second; {
+				time.Sleep(200 * time.Microsecond)
+			}
+			q <- os.Interrupt
+			select {
+			case <-done:
+			case <-time.After(2 * time.Second):
+			}
+			kl.mu.Lock()
+			for i, st := range kl.kept {
+				ev = append(ev, M{"ev": "event", "ret": kl.at[i]})
+				held = append(held, &heldVal{v: st})
+			}
+			kl.mu.Unlock()
 		case "scribble":
 			for i := range d.scratch {
 				d.scratch[i] = 0xee
